@@ -116,6 +116,7 @@ func (p *BytesSkipDecoder) Reset(b []byte) {
 //
 // The returned buf refers to the input []byte without copy
 func (p *BytesSkipDecoder) Next(t TType) (b []byte, err error) {
+	p.n = 0 // like the other skip decoders: a Next that failed part-way must not leak its offset
 	if err = NewSkipDecoderTpl(p).Skip(t, defaultRecursionDepth); err != nil {
 		return
 	}
